@@ -9,10 +9,17 @@ package main
 //	pemblock  (type bytes oracle)                       -> parsePEMBlock result
 //	pemf      (text oracles blocks)                     -> PEMFile outcome
 //	insp      (path data rows oracles blocks ref scope) -> Inspect outcome
+//	insplim   (path data rows oracles blocks ref scope limit) -> Inspect outcome with file.MaxReadSize = limit
+//	pemdec    (text)                                    -> the blocks PEMFile's loop over pem.Decode meets
 //	cli       (path data info)                          -> (stdout-file code stdout-dash code stdout-noargs code)
 //
 // "oracle" = for one byte string handed to the DER parsers: the result of each of the
-// nine individual parsers and of the generic dump, as the real code computes them.
+// nine individual parsers, and of the generic dump where parseDERData knows no type, as
+// the real code computes them.
+//
+// The objects: c05Objects (one of every variant of the seven types, c05MoreKinds in
+// c05_sized.go) and c05SizedObjects (every kind at exact encoded lengths around every
+// buffer size, c05_sized.go).
 
 import (
 	"bytes"
